@@ -13,7 +13,6 @@
 struct PL { unsigned long BLOCKBITS, BLOCKSIZE, num_containers, allocsize, container_size, m_size; unsigned long *blk[64]; int sl; };
 struct RI { unsigned long BLOCKBITS, INITIALBLOCKSIZE, numElements; unsigned long *blk[64]; int slock; };
 struct PL g_pl; struct RI g_ri;
-int g_locked;                       /* ghost mutex */
 unsigned long in_index, in_bn, in_k, in_val;
 unsigned long g_nc0; unsigned long *g_blk0_k; unsigned long g_size0;
 _Bool first_cn, first_ap;
@@ -22,15 +21,65 @@ _Bool vx_nondet_bool(void) { return nondet_bool(); }
 
 /* operator new[]: a fresh object of the requested size, or no return (std::bad_alloc ends the path) */
 void *vx_new_array(unsigned long n, unsigned long sz) { void *p = malloc(n * sz); __CPROVER_assume(p != NULL); return p; }
-void vx_lock(void) { __CPROVER_assert(!g_locked, "lock: not re-entered"); g_locked = 1; }
-void vx_unlock(void) { __CPROVER_assert(g_locked, "unlock: held"); g_locked = 0; }
-/* sequential harnesses: the environment is silent; the monitor only checks that atomic steps hit fields of the object */
+int g_owner;                       /* ghost: who holds the growth lock (0 nobody, 1 this thread, 2 another thread) */
+unsigned long g_own_idx; unsigned g_own_adds;   /* this thread's own fetch_add on m_size: value before, count */
+#define SELF 1
+static _Bool INV_PL(void);
+static _Bool WINV(void);
+static _Bool BLOCK_OK(unsigned long k, unsigned long nc);
+#ifdef VX_CONC
+/* R: what other threads may do between two of this thread's atomic steps */
+void vx_yield(void) {
+    struct PL a = g_pl; int ow = g_owner;
+    unsigned long ms = nondet_ulong(), nc = nondet_ulong(), cs = nondet_ulong(), as = nondet_ulong(); unsigned long *nb = g_pl.blk[in_k < 64 ? in_k : 0];
+    __CPROVER_assume(ms >= a.m_size && ms < (1ul << 31) - BS - 1);     /* sizes only grow (bounded as in the sequential contract) */
+    g_pl.m_size = ms;
+    if (ow == SELF) return;                                           /* while this thread holds the lock nobody else grows the list */
+    g_owner = nondet_bool() ? 0 : 2;
+    __CPROVER_assume(nc >= a.num_containers && nc <= MAXNC && cs >= a.container_size);
+    if (in_k < 64 && in_k >= a.num_containers && in_k < nc) { nb = malloc((BS << in_k) * sizeof(unsigned long)); __CPROVER_assume(nb != NULL); g_pl.blk[in_k] = nb; }
+    g_pl.num_containers = nc; g_pl.container_size = cs; g_pl.allocsize = as;
+    __CPROVER_assume(g_owner == 0 ? INV_PL() : WINV());               /* free lock => quiescent state; held by another => any intermediate state */
+}
+/* SpinLock::lock / unlock as proved in unit `spinlock`: lock returns only after acquiring at an instant when the lock was free */
+void vx_lock(void) { __CPROVER_assert(g_owner != SELF, "lock: not re-entered"); vx_yield(); __CPROVER_assume(g_owner == 0); g_owner = SELF; }
+void vx_unlock(void) {
+    __CPROVER_assert(g_owner == SELF, "unlock: held");
+    __CPROVER_assert(INV_PL(), "G.unlock: the growth lock is released only in a quiescent state (INV_PL)");
+    g_owner = 0;
+}
+void vx_step(void *obj, int kind, unsigned long o, unsigned long n) {
+    (void)kind;
+    if (obj == (void *)&g_pl.m_size) {
+        __CPROVER_assert(n == o || n == o + 1, "G.size: m_size changes only by +1");
+        if (n != o) { g_own_idx = o; if (g_own_adds < 3) g_own_adds++; }
+    } else if (obj == (void *)&g_pl.num_containers || obj == (void *)&g_pl.container_size) {
+        if (n != o) {
+            __CPROVER_assert(g_owner == SELF, "G.grow: num_containers / container_size are written only under the growth lock");
+            __CPROVER_assert(n > o, "G.grow: growth only");
+            __CPROVER_assert(WINV(), "G.order: every intermediate state visible to lock-free readers satisfies WINV (block stored before the counters cover it)");
+            __CPROVER_assert(BLOCK_OK(in_k, g_pl.num_containers), "G.order: a block counted by num_containers is allocated");
+        }
+    } else __CPROVER_assert(0, "atomic operation on an unexpected object");
+}
+#else
+void vx_lock(void) { __CPROVER_assert(g_owner != SELF, "lock: not re-entered"); g_owner = SELF; }
+void vx_unlock(void) { __CPROVER_assert(g_owner == SELF, "unlock: held"); g_owner = 0; }
+/* sequential harnesses: the environment is silent */
 void vx_yield(void) {}
 void vx_step(void *obj, int kind, unsigned long o, unsigned long n) { (void)obj; (void)kind; (void)o; (void)n; }
+#endif
 
 static _Bool INV_PL(void) {
     return g_pl.BLOCKBITS == BB && g_pl.BLOCKSIZE == BS && g_pl.num_containers <= MAXNC &&
            g_pl.container_size == BS * ((1ul << g_pl.num_containers) - 1) && g_pl.allocsize == (BS << g_pl.num_containers);
+}
+/* what a lock-free reader may observe while another thread grows the list: the counters lag behind by at most one step,
+   in the order  blk[nc] = new ; nc += 1 ; cs += allocsize ; allocsize <<= 1 */
+static _Bool WINV(void) {
+    unsigned long nc = g_pl.num_containers, cs = g_pl.container_size;
+    return g_pl.BLOCKBITS == BB && g_pl.BLOCKSIZE == BS && nc <= MAXNC &&
+           (cs == BS * ((1ul << nc) - 1) || (nc >= 1 && cs == BS * ((1ul << (nc - 1)) - 1)));
 }
 /* block in_k (ghost index) is allocated with the right size if it is below nc */
 static _Bool BLOCK_OK(unsigned long k, unsigned long nc) {
@@ -41,32 +90,46 @@ static _Bool DECOMP(unsigned long index, unsigned long bn) { return bn <= MAXNC 
 
 /* ------------------------------------------------------------------ contracts */
 unsigned long *h_pl_get(void *p, unsigned long index)
-__CPROVER_requires(p == (void *)&g_pl && INV_PL() && index < g_pl.container_size && index + BS < (1ul << 31))
+/* WINV (what a lock-free reader may see during another thread's growth) is enough: INV_PL implies it */
+__CPROVER_requires(p == (void *)&g_pl && WINV() && BLOCK_OK(in_k, g_pl.num_containers) && index < g_pl.container_size && index + BS < (1ul << 31))
 __CPROVER_requires(in_bn < 64 && DECOMP(index, in_bn))
 __CPROVER_ensures(in_bn < g_pl.num_containers)
 __CPROVER_ensures(__CPROVER_return_value == g_pl.blk[in_bn] + (index + BS - (BS << in_bn)))
 __CPROVER_ensures(index + BS - (BS << in_bn) < (BS << in_bn))
 __CPROVER_assigns();
 
+#ifdef VX_CONC
+/* under interference: the index returned is this thread's own fetch_add value (unique, cf. C22); on return the counters cover it
+   (stable: they only grow), the quiescent invariant holds whenever the lock is free, existing blocks were never replaced */
 unsigned long h_pl_createNode(void *p)
-__CPROVER_requires(p == (void *)&g_pl && INV_PL() && !g_locked && g_pl.m_size < (1ul << 31) - BS - 1 && g_pl.num_containers <= MAXNC)
+__CPROVER_requires(p == (void *)&g_pl && g_owner != SELF && (g_owner == 0 ? INV_PL() : WINV()) && g_pl.m_size < (1ul << 31) - BS - 1 && g_own_adds == 0)
+__CPROVER_requires(in_k < 64 && g_nc0 == g_pl.num_containers && g_blk0_k == g_pl.blk[in_k] && BLOCK_OK(in_k, g_pl.num_containers))
+__CPROVER_ensures(g_own_adds == 1 && __CPROVER_return_value == g_own_idx)
+__CPROVER_ensures(g_pl.container_size >= __CPROVER_return_value + 1 && g_owner != SELF && (g_owner == 0 ? INV_PL() : WINV()))
+__CPROVER_ensures(g_pl.num_containers >= g_nc0 && (in_k < g_nc0 ==> g_pl.blk[in_k] == g_blk0_k) && BLOCK_OK(in_k, g_pl.num_containers))
+__CPROVER_assigns(g_pl, g_owner, g_own_idx, g_own_adds, first_cn, first_ap);
+#else
+unsigned long h_pl_createNode(void *p)
+__CPROVER_requires(p == (void *)&g_pl && INV_PL() && !(g_owner == SELF) && g_pl.m_size < (1ul << 31) - BS - 1 && g_pl.num_containers <= MAXNC)
 __CPROVER_requires(g_nc0 == g_pl.num_containers && g_size0 == g_pl.m_size && in_k < 64 && g_blk0_k == g_pl.blk[in_k])
 __CPROVER_ensures(__CPROVER_return_value == g_size0 && g_pl.m_size == g_size0 + 1)
-__CPROVER_ensures(INV_PL() && !g_locked && g_pl.container_size >= g_size0 + 1 && g_pl.num_containers >= g_nc0)
+__CPROVER_ensures(INV_PL() && !(g_owner == SELF) && g_pl.container_size >= g_size0 + 1 && g_pl.num_containers >= g_nc0)
 __CPROVER_ensures(in_k < g_nc0 ==> g_pl.blk[in_k] == g_blk0_k)
 __CPROVER_ensures(BLOCK_OK(in_k, g_pl.num_containers) || in_k < g_nc0)
-__CPROVER_assigns(g_pl, g_locked, first_cn, first_ap);
+__CPROVER_assigns(g_pl, g_owner, g_own_idx, g_own_adds, first_cn, first_ap);
+
+#endif
 
 unsigned long h_pl_append(void *p, unsigned long e)
-__CPROVER_requires(p == (void *)&g_pl && INV_PL() && !g_locked && g_pl.m_size < (1ul << 31) - BS - 1 && g_pl.num_containers <= MAXNC)
+__CPROVER_requires(p == (void *)&g_pl && INV_PL() && !(g_owner == SELF) && g_pl.m_size < (1ul << 31) - BS - 1 && g_pl.num_containers <= MAXNC)
 __CPROVER_requires(g_nc0 == g_pl.num_containers && g_size0 == g_pl.m_size && in_k < 64 && g_blk0_k == g_pl.blk[in_k])
 __CPROVER_requires(BLOCK_OK(in_k, g_pl.num_containers))   /* allocated by the harness */
 __CPROVER_requires(in_bn < 64 && DECOMP(g_pl.m_size, in_bn) && in_bn == in_k)   /* the ghost-indexed block is the one the new index addresses */
 __CPROVER_ensures(__CPROVER_return_value == g_size0 && g_pl.m_size == g_size0 + 1)
-__CPROVER_ensures(INV_PL() && !g_locked && g_pl.container_size >= g_size0 + 1 && g_pl.num_containers >= g_nc0)
+__CPROVER_ensures(INV_PL() && !(g_owner == SELF) && g_pl.container_size >= g_size0 + 1 && g_pl.num_containers >= g_nc0)
 __CPROVER_ensures(in_k < g_nc0 ==> g_pl.blk[in_k] == g_blk0_k)
 __CPROVER_ensures(in_bn < g_pl.num_containers && g_pl.blk[in_bn][g_size0 + BS - (BS << in_bn)] == e)
-__CPROVER_assigns(g_pl, g_locked, first_cn, first_ap; in_k < g_pl.num_containers: __CPROVER_object_whole(g_pl.blk[in_k]));
+__CPROVER_assigns(g_pl, g_owner, g_own_idx, g_own_adds, first_cn, first_ap; in_k < g_pl.num_containers: __CPROVER_object_whole(g_pl.blk[in_k]));
 
 unsigned long *h_ri_get(void *p, unsigned long index)
 __CPROVER_requires(p == (void *)&g_ri && g_ri.BLOCKBITS == BB && g_ri.INITIALBLOCKSIZE == BS && index + BS < (1ul << 31))
@@ -76,21 +139,31 @@ __CPROVER_ensures(index + BS - (BS << in_bn) < (BS << in_bn))
 __CPROVER_assigns();
 
 void h_ri_insertAt(void *p, unsigned long index, unsigned long v)
-__CPROVER_requires(p == (void *)&g_ri && g_ri.BLOCKBITS == BB && g_ri.INITIALBLOCKSIZE == BS && index + BS < (1ul << 31) && !g_locked)
+__CPROVER_requires(p == (void *)&g_ri && g_ri.BLOCKBITS == BB && g_ri.INITIALBLOCKSIZE == BS && index + BS < (1ul << 31) && !(g_owner == SELF))
 __CPROVER_requires(in_bn < 64 && DECOMP(index, in_bn) && g_size0 == g_ri.numElements)
 __CPROVER_requires(g_ri.blk[in_bn] == NULL || __CPROVER_is_fresh(g_ri.blk[in_bn], (BS << in_bn) * sizeof(unsigned long)))
 __CPROVER_ensures(g_ri.blk[in_bn] != NULL && g_ri.blk[in_bn][index + BS - (BS << in_bn)] == v)
-__CPROVER_ensures(g_ri.numElements == g_size0 + 1 && !g_locked)
+__CPROVER_ensures(g_ri.numElements == g_size0 + 1 && !(g_owner == SELF))
 __CPROVER_ensures(__CPROVER_old(g_ri.blk[in_bn]) != NULL ==> g_ri.blk[in_bn] == __CPROVER_old(g_ri.blk[in_bn]))
-__CPROVER_assigns(g_ri.numElements, g_ri.blk[in_bn], g_locked; g_ri.blk[in_bn] != NULL: __CPROVER_object_whole(g_ri.blk[in_bn]));
+__CPROVER_assigns(g_ri.numElements, g_ri.blk[in_bn], g_owner; g_ri.blk[in_bn] != NULL: __CPROVER_object_whole(g_ri.blk[in_bn]));
 
 unsigned long h_off_pl(int k); unsigned long h_off_ri(int k);
 
 /* ------------------------------------------------------------------ loop hooks: while (container_size < new_index + 1) {...} */
 static _Bool I_grow(unsigned long new_index) {
-    return INV_PL() && g_locked && g_pl.num_containers >= g_nc0 && g_pl.m_size == g_size0 + 1 && new_index == g_size0 &&
+    return INV_PL() && (g_owner == SELF) && g_pl.num_containers >= g_nc0 &&
+#ifdef VX_CONC
+           g_pl.m_size >= new_index + 1 && g_own_adds == 1 && new_index == g_own_idx && g_pl.m_size < (1ul << 31) - BS - 1 &&
+#else
+           g_pl.m_size == g_size0 + 1 && new_index == g_size0 &&
+#endif
            (in_k < g_nc0 ? g_pl.blk[in_k] == g_blk0_k : 1) && (in_k >= g_nc0 ? BLOCK_OK(in_k, g_pl.num_containers) : 1);
 }
+#ifdef VX_CONC
+#define HAVOC_MSIZE g_pl.m_size = nondet_ulong();
+#else
+#define HAVOC_MSIZE
+#endif
 #define HOOK(NAME, FLAG)                                                                                   \
 void vx_enter_##NAME##_0(void) { FLAG = 1; }                                                               \
 _Bool vx_head_##NAME##_0(void *self, unsigned long new_index) {                                            \
@@ -105,6 +178,7 @@ _Bool vx_head_##NAME##_0(void *self, unsigned long new_index) {                 
             __CPROVER_assume(g_pl.blk[in_k] != NULL);                                                      \
         }                                                                                                  \
         g_pl.num_containers = nc; g_pl.container_size = BS * ((1ul << nc) - 1); g_pl.allocsize = BS << nc; \
+        HAVOC_MSIZE                                                                                        \
         __CPROVER_assume(I_grow(new_index));                                                               \
         FLAG = 0;                                                                                          \
     } else {                                                                                               \
@@ -123,7 +197,7 @@ HOOK(append, first_ap)
 #define CANARY
 #endif
 static void any_pl(void) {
-    struct PL h; g_pl = h; g_locked = 0;
+    struct PL h; g_pl = h; g_owner = 0; g_own_adds = 0;
     in_index = nondet_ulong(); in_bn = nondet_ulong(); in_k = nondet_ulong(); in_val = nondet_ulong();
     __CPROVER_assume(in_k < 64);
     /* the ghost-indexed block is a real allocation when it is below num_containers */
@@ -142,9 +216,24 @@ void harness_get(void) {
     CANARY;
 }
 void harness_createNode(void) { any_pl(); h_pl_createNode(&g_pl); CANARY; }
+#ifdef VX_CONC
+void harness_createNode_conc(void) {
+    any_pl(); g_owner = nondet_bool() ? 0 : 2; g_own_adds = 0;
+    h_pl_createNode(&g_pl); CANARY;
+}
+#endif
+/* INV_PL => WINV, and the covered index's block number is below num_containers under WINV */
+void lemma_winv(void) {
+    struct PL h; g_pl = h;
+    if (INV_PL()) __CPROVER_assert(WINV(), "lemma: the quiescent invariant implies the readers' invariant");
+    unsigned long idx = nondet_ulong(), bn = nondet_ulong();
+    __CPROVER_assume(WINV() && idx < g_pl.container_size && bn < 64 && DECOMP(idx, bn));
+    __CPROVER_assert(bn < g_pl.num_containers, "lemma: an index covered by container_size lives in an allocated block (WINV)");
+    CANARY;
+}
 void harness_append(void) { any_pl(); __CPROVER_assume(in_bn == in_k); h_pl_append(&g_pl, in_val); CANARY; }
 static void any_ri(void) {
-    struct RI h; g_ri = h; g_locked = 0;
+    struct RI h; g_ri = h; g_owner = 0;
     in_index = nondet_ulong(); in_bn = nondet_ulong(); in_val = nondet_ulong(); g_size0 = g_ri.numElements;
 }
 void harness_ri_get(void) { any_ri(); h_ri_get(&g_ri, in_index); CANARY; }
